@@ -454,8 +454,6 @@ P_ = PROPS["C13"]
 P_["assumptions"] = P_["assumptions"] + QF_M_ASSUME
 P_["units"] += [
     M("qf_insert_q2r2_m", "thorough", "engine M cross-check of the (2,2) insert statement (must agree with the Kani verdict)", "(2,2)", model="qf", op="insert", bq=2, br=2, timeout_s=3600, need_witness=["ret", "err_full", "ok_new_into_nearly_full"]),
-], mem_gb=24),
-    M("qf_insert_q3r2_m", "thorough", "insert vs enc at 8 slots", "(3,2)", model="qf", op="insert", bq=3, br=2, timeout_s=10800, need_witness=["ret", "err_full"], mem_gb=24),
 ]
 
 
